@@ -396,7 +396,9 @@ class Verdict:
         ev = {"property_id": self.pid, "tier": self.tier, "seed": self.seed, "level": self.level,
               "coverage": cov, "assumptions": self.assumptions, "wall_s": round(wall, 2),
               "violations": len(seen)}
-        with open(os.path.join(EVID, self.pid + ".json"), "w") as fh:
+        evdir = EVID if not self.pid.startswith("X") else os.path.join(EVID, "extra")   # X..: specification growth beyond the listed properties
+        os.makedirs(evdir, exist_ok=True)
+        with open(os.path.join(evdir, self.pid + ".json"), "w") as fh:
             json.dump(ev, fh, indent=1, default=str)
         return 1 if seen else 0
 
